@@ -9,6 +9,7 @@ import Driver.OpsFnGen2
 import Driver.OpsFnGen3
 import Driver.OpsFnGen4
 import Driver.OpsFnGen5
+import Driver.OpsFnGen6
 import Driver.OpsC03
 import Driver.OpsSym
 import Driver.OpsBot
@@ -39,6 +40,7 @@ def handlers : List Handler := [
   handleFnGen3,
   handleFnGen4,
   handleFnGen5,
+  handleFnGen6,
   handleC03,
   handleSym,
   handleEval,
